@@ -73,14 +73,6 @@ def intBitwise (f : Nat → Nat → Nat) (x y : Int) : Int :=
 
 def unit (a : Int) (m : Nat) : Bool := Nat.gcd (a % (m : Int)).toNat m == 1
 
-/-- `x^e mod m` for a signed exponent (negative: power of the inverse; undefined → none) -/
-def powModI (x : Nat) (e : Int) (m : Nat) : Option Nat :=
-  if e ≥ 0 then some (powMod x e.toNat m) else
-  if m = 1 then some 0 else
-  (invMod x m).map fun xi => powMod xi e.natAbs m
-
-def symMod (x : Int) (m : Nat) : Int := let r := x % (m : Int); if 2 * r ≥ m then r - m else r
-
 def inRangeSym (x : Int) (m : Nat) : Bool := decide (-(m : Int) ≤ 2 * x) && decide (2 * x < m)
 
 /-- the model's answer for a modular square root line (relational) -/
@@ -167,15 +159,21 @@ def handleNat (op : String) (args : List String) (rhs : String) : Verdict :=
     | _, _ => .unsupported "args"
   | "n.gcd", [al, xs, ys] =>
     match parseCV xs, parseCV ys with
-    | some x, some y => classify op al "nat-output-alias" (rN (Nat.gcd x.nat y.nat) (imax x.c y.c)) rhs
+    | some x, some y =>
+      -- the mirrored binary algorithm at the capacity the Go code uses; `Props.C17.gcd_eq`: it is `Nat.gcd`
+      let g := gcdBin (imax x.c y.c).toNat x.nat y.nat
+      if g ≠ Nat.gcd x.nat y.nat then .unsupported "model gcd" else
+      classify op al "nat-output-alias" (rN g (imax x.c y.c)) rhs
     | _, _ => .unsupported "args"
   | "n.coprime", [xs, ys] =>
     match parseCV xs, parseCV ys with
-    | some x, some y => spec op (b01 (Nat.gcd x.nat y.nat == 1)) rhs
+    | some x, some y => spec op (b01 (gcdBin (imax x.c y.c).toNat x.nat y.nat == 1)) rhs
     | _, _ => .unsupported "args"
   | "n.lcm", [xs, ys] =>
     match parseCV xs, parseCV ys with
-    | some x, some y => spec op (hx (Nat.lcm x.nat y.nat)) rhs
+    | some x, some y =>
+      let l := lcmBin (imax x.c y.c).toNat x.nat y.nat
+      if l ≠ Nat.lcm x.nat y.nat then .unsupported "model lcm" else spec op (hx l) rhs
     | _, _ => .unsupported "args"
   | "n.sqrt", [xs] =>
     match parseCV xs with
@@ -291,7 +289,7 @@ def handleInt (op : String) (args : List String) (rhs : String) : Verdict :=
     | some x, some y =>
       let vt := op == "i.divvt" || op == "i.edivvt"
       let eu := op == "i.ediv" || op == "i.edivvt"
-      let qr := if eu then edivmod x.int y.int else tdivmod x.int y.int
+      let qr := if eu then edivFromAbs x.int y.int else tdivFromAbs x.int y.int   -- = Int.ediv/emod, Int.tdiv/tmod (`Props.C17.divmod_mirror`)
       let model := if y.int = 0 then "none" else "ok:" ++ rI qr.1 x.c ++ "," ++ rI qr.2 y.c
       let modelV := if y.int = 0 then "none" else "ok:" ++ hi qr.1 ++ "," ++ hi qr.2
       if vt then classify "divvt-short-numerator-wrong" al "divvt-alias-numerator" modelV (stripCaps rhs)
@@ -557,8 +555,8 @@ def handleNum (op : String) (args : List String) (rhs : String) : Verdict :=
   | "Z.div", [as, bs] | "Z.divvt", [as, bs] =>
     match hexToInt? as, hexToInt? bs with
     | some a, some b =>
-      let t := tdivmod a b
-      let e := edivmod a b
+      let t := tdivFromAbs a b
+      let e := edivFromAbs a b
       let exact := if b = 0 then "none" else if t.2 = 0 then "ok:" ++ hi t.1 else "none"
       let round := if b = 0 then "none" else "ok:" ++ hi t.1
       let ed := if b = 0 then "none" else "ok:" ++ hi e.1 ++ ":" ++ hi e.2
@@ -583,8 +581,8 @@ def handleNum (op : String) (args : List String) (rhs : String) : Verdict :=
       let b : Int := bd
       let div := if bn = 0 then "none" else "ok:" ++ ratS (if bn < 0 then -(an * b) else an * b) (ad * bn.natAbs)
       let inv := if an = 0 then "none" else "ok:" ++ ratS (if an < 0 then -a else a) an.natAbs
-      let fl := an / a
-      let ce := if an % a = 0 then fl else fl + 1
+      let fl := ratFloor an ad
+      let ce := ratCeil an ad
       spec op (joinComma [ratS (an * b + bn * a) (ad * bd), ratS (an * b - bn * a) (ad * bd), ratS (an * bn) (ad * bd), div, inv, ratS (-an) ad, ratCanon an ad,
         "ok:" ++ hi ce, "ok:" ++ hi fl,
         b01 (decide (an * b ≤ bn * a)) ++ b01 (an * b == bn * a) ++ b01 (an % a == 0) ++ b01 (an == 0) ++ b01 (an == a) ++ b01 (decide (an < 0)) ++ b01 (decide (an > 0))]) rhs
@@ -628,7 +626,9 @@ def handleMisc (op : String) (args : List String) (rhs : String) : Verdict :=
   | "jacobi", [xs, ys] =>
     match hexToInt? xs, hexToNat? ys with
     | some x, some y =>
-      let model := if y % 2 = 0 then "reject" else toString (jacobi x y)
+      let model := match jacobiChecked x y with
+        | none => "reject"
+        | some j => toString j
       if model == rhs then .ok
       else if x < 0 then .bad "jacobi-negative-numerator" ("expected=" ++ model ++ " observed=" ++ rhs)
       else .bad "jacobi" ("expected=" ++ model ++ " observed=" ++ rhs)
